@@ -660,6 +660,12 @@ func (e *FieldAccessExpr) execListAccess(idx int, left any) (any, error) {
 }
 
 func (e *FieldReferenceExpr) Execute(kv KVPair, ctx *ExecuteCtx) (any, error) {
+	if ctx == nil {
+		// Evaluated without a context (row by row inside a batch, the filter
+		// under an aggregate): remember the fields for this one evaluation,
+		// else fields that use each other twice are computed 2^n times
+		ctx = NewExecuteCtx()
+	}
 	if ctx != nil {
 		cval, have := ctx.GetFieldResult(e.Name.Data)
 		if have {
